@@ -211,6 +211,12 @@ func (c *cfContents) descOf(d ociregistry.Descriptor) (alg, cont string) {
 	if x, ok := c.byDig[string(d.Digest)]; ok {
 		return x[0], x[1]
 	}
+	// a digest of bytes that are not in the catalogue: the algorithm is still legible
+	if i := strings.IndexByte(string(d.Digest), ':'); i > 0 {
+		if alg := string(d.Digest)[:i]; alg == "sha256" || alg == "sha384" || alg == "sha512" {
+			return alg, "unknown"
+		}
+	}
 	return "unknown", "unknown"
 }
 
@@ -465,11 +471,9 @@ func cfRender(r *cfResp, k int, call string) (http.Header, int64, *cfBody, int64
 		case "errjson":
 			body.data = []byte(`{"errors":[{"code":"NAME_UNKNOWN","message":"scripted"}]}`)
 		case "wsjson":
-			if k%2 == 0 {
-				body.data = []byte(`{"errors":[]}`)
-			} else {
-				body.data = []byte(`[1,2,3]`)
-			}
+			body.data = []byte(`{"errors":[]}`)
+		case "wsarr":
+			body.data = []byte(`[1,2,3]`)
 		case "huge":
 			body.data = []byte(`{"errors":[{"code":"UNKNOWN","message":"` + strings.Repeat("m", 3*cfErrLimit) + `"}]}`)
 		case "endless":
@@ -502,7 +506,7 @@ type cfTransport struct {
 
 var (
 	cfLocRe    = regexp.MustCompile(`/loc/(\d+)$`)
-	cfRangeRe  = regexp.MustCompile(`^bytes=(\d+)-(\d*)$`)
+	cfRangeRe  = regexp.MustCompile(`^bytes=(-?\d+)-(-?\d*)$`)
 	cfCRangeRe = regexp.MustCompile(`^(-?\d+)-(-?\d+)$`)
 )
 
@@ -1050,7 +1054,7 @@ func cfRandResp(rnd *rand.Rand, call string) cfResp {
 		r.Crtot = []int64{0, 1, 2, 3, 5, -7, 1000000}[rnd.Intn(7)]
 	}
 	// body
-	r.Body = cfPick(rnd, "blob", "blob", "blob", "list", "list", "list", "wszero", "wserr", "empty", "trunc", "garbage", "errjson", "wsjson", "huge", "endless", "rand", "rand")
+	r.Body = cfPick(rnd, "blob", "blob", "blob", "list", "list", "list", "wszero", "wserr", "empty", "trunc", "garbage", "errjson", "wsjson", "wsarr", "huge", "endless", "rand", "rand")
 	switch r.Body {
 	case "blob":
 		r.Bcont = cfPick(rnd, "c", "c", "c", "w", "s", "l", "e", "B", "B", "Bw", "Bs", "Bl")
